@@ -173,6 +173,61 @@ def conjuncts(test):
     return [test]
 
 
+_FLIP = {ast.Eq: ast.NotEq, ast.NotEq: ast.Eq, ast.In: ast.NotIn, ast.NotIn: ast.In, ast.Is: ast.IsNot, ast.IsNot: ast.Is,
+         ast.Lt: ast.GtE, ast.GtE: ast.Lt, ast.Gt: ast.LtE, ast.LtE: ast.Gt}
+
+
+def negated_conjuncts(test):
+    """conjuncts of `not test`: De Morgan over `or`, double negation, flipped single comparisons; a conjunction stays one negated term"""
+    if isinstance(test, ast.BoolOp) and isinstance(test.op, ast.Or):
+        out = []
+        for v in test.values:
+            out.extend(negated_conjuncts(v))
+        return out
+    if isinstance(test, ast.UnaryOp) and isinstance(test.op, ast.Not):
+        return conjuncts(test.operand)
+    if isinstance(test, ast.Compare) and len(test.ops) == 1:
+        return [ast.copy_location(ast.Compare(left=test.left, ops=[_FLIP[type(test.ops[0])]()], comparators=test.comparators), test)]
+    return [ast.copy_location(ast.UnaryOp(op=ast.Not(), operand=test), test)]
+
+
+def positive_conjuncts(test):
+    """conjuncts of `test` with `not (a or b)` / `not not a` / `not a == b` opened up"""
+    out = []
+    for c in conjuncts(test):
+        if isinstance(c, ast.UnaryOp) and isinstance(c.op, ast.Not):
+            out.extend(negated_conjuncts(c.operand))
+        else:
+            out.append(c)
+    return out
+
+
+def reach_conditions(node, fn, parents=None):
+    """conditions that hold whenever `node` is reached inside fn, from control dependence: tests of the enclosing ifs (negated in an else
+    branch) and the negated tests of earlier sibling `if T: continue / break / return / raise` statements in every enclosing block"""
+    if parents is None:
+        parents = enclosing_map(fn)
+    out = []
+    child, p = node, parents.get(node)
+    while p is not None:
+        for field in ('body', 'orelse', 'finalbody'):
+            blk = getattr(p, field, None)
+            if isinstance(blk, list) and child in blk:
+                if isinstance(p, ast.If):
+                    out.extend(positive_conjuncts(p.test) if field == 'body' else negated_conjuncts(p.test))
+                for st in blk[:blk.index(child)]:
+                    if isinstance(st, ast.If) and not st.orelse and st.body and isinstance(st.body[-1], (ast.Continue, ast.Break, ast.Return, ast.Raise)):
+                        out.extend(negated_conjuncts(st.test))
+                    elif isinstance(st, ast.If) and st.orelse and isinstance(st.orelse[-1], (ast.Continue, ast.Break, ast.Return, ast.Raise)) \
+                            and not (st.body and isinstance(st.body[-1], (ast.Continue, ast.Break, ast.Return, ast.Raise))):
+                        out.extend(positive_conjuncts(st.test))
+                break
+        if p is fn:
+            break
+        child, p = p, parents.get(p)
+    return out
+
+
 class Renamer(ast.NodeTransformer):
     def __init__(self, mapping):
         self.mapping = mapping
@@ -270,6 +325,11 @@ def single_defs(fn):
                         counts[x.id] = counts.get(x.id, 0) + 1
             if len(n.targets) == 1 and isinstance(n.targets[0], ast.Name):
                 vals[n.targets[0].id] = n.value
+            elif len(n.targets) == 1 and isinstance(n.targets[0], ast.Tuple) and isinstance(n.value, ast.Tuple) \
+                    and len(n.targets[0].elts) == len(n.value.elts):
+                for t, v in zip(n.targets[0].elts, n.value.elts):  # a, b = x, y
+                    if isinstance(t, ast.Name) and not isinstance(v, ast.Starred):
+                        vals[t.id] = v
         elif isinstance(n, (ast.AugAssign, ast.AnnAssign)):
             for x in ast.walk(n.target):
                 if isinstance(x, ast.Name):
